@@ -498,7 +498,7 @@ class CallMixin:
         ok.trace.append(("opaque", f, args, SV(res, ANY), anc))
         rv = SV(res, ANY)
         for key, (rty, aid) in getattr(self.spec, "opaque_result_types", {}).items() if self.spec is not None else ():
-            if key in anc:
+            if (key(anc) if callable(key) else key in anc):
                 rv = self.typed(ok, res, rty)
                 ok.uses.add(aid)
         if self.spec is not None:
